@@ -335,8 +335,10 @@ def cost_value(prep, gi, cost):
 
 def make_chooser(prep, mode, seed):
     rng = random.Random(seed)
-    tab = prep.tables[0]
-    d = prep.dirs[0]
+    if not prep.tables:
+        mode = "random" if mode == "random" else "first"
+    tab = prep.tables[0] if prep.tables else None
+    d = prep.dirs[0] if prep.dirs else "min"
 
     def chooser(rows):
         if mode == "first":
@@ -433,6 +435,8 @@ def run_case(case):
         else:
             if isinstance(exc, brute.BruteBudgetExceeded):
                 py_res = "err:nontermination"
+            elif not goals and isinstance(exc, (UnboundLocalError, IndexError)):
+                py_res = "err:empty"
             elif isinstance(exc, KeyError):
                 py_res = "err:key"
             elif isinstance(exc, PysmtValueError):
@@ -442,7 +446,7 @@ def run_case(case):
             unsupported = [i for i, s in enumerate(prep.supported) if not s]
             report("exception", "%s raised %s: %s" % (routine, type(exc).__name__, str(exc)[:200]),
                    exc=type(exc).__name__,
-                   objective=("unsupported-logic" if unsupported else "supported"),
+                   objective=("no-goals" if not goals else "unsupported-logic" if unsupported else "supported"),
                    objective_sort=",".join(sorted(set(prep.doms[i] for i in unsupported))) if unsupported else "-")
     else:
         if after[0] != before[0] or after[1] != before[1]:
@@ -697,8 +701,8 @@ def gen_cases(ctx):
         k += 1
         if k % 3 == 0:
             yield next(samp)
-    ctx.extra["exhaustive"] = True
     ctx.extra["grid_cases"] = k
+    ctx.extra["grid_complete"] = True
     for item in samp:
         yield item
 
@@ -742,9 +746,15 @@ def _gen_grid(ctx):
                 gs = rng.sample(pool, rng.choice([1, 2, 2, 2, 3]))
                 for routine in ("boxed", "lexi", "pareto"):
                     yield "grid", mk(vars_, asserts, gs, routine, rng.choice(strategies), rng.choice(mixins))
-    ctx.extra["exhaustive_what"] = ("all systems of <= 2 constraints from a %d-element palette over two BV "
-                                    "variables, widths %s, x %d single-goal kinds (x strategy x mix-in in "
-                                    "the thorough tier)" % (len(bv_palette(2)), widths, len(bv_goals(2))))
+        # this width is complete
+        done = ctx.extra.setdefault("exhaustive_widths", [])
+        done.append(w)
+        ctx.extra["exhaustive"] = True
+        ctx.extra["exhaustive_what"] = ("all systems of <= 2 constraints from a %d-element palette over two BV "
+                                        "variables of width %s x %d single-goal kinds%s, plus sampled "
+                                        "multi-objective calls on every system"
+                                        % (len(pal), done, len(pool),
+                                           " (strategy/mix-in rotated)" if quick else " x strategy x mix-in"))
 
 
 
@@ -815,6 +825,8 @@ def _gen_sampled(ctx):
                 if not gs:
                     routine = "boxed"
                     gs = [rng.choice(pool)]
+        if routine != "single" and rng.random() < 0.01:
+            gs = []            # F24c: lexicographic / pareto with no goal at all
         yield fam, mk(vars_, asserts, gs, routine, strat, mixin)
 
 
@@ -921,7 +933,7 @@ def _spec_queries(prep, case):
     """spec queries for the Lean specification (cross-check of the harness oracles)"""
     rows = prep.feasible
     n = len(prep.goals)
-    if any(s != 1 for s in prep.scale):
+    if n == 0 or any(s != 1 for s in prep.scale):
         return []
     vecs = ";".join(",".join(str(prep.tables[g][r]) for g in range(n)) for r in rows)
     ds = ",".join(prep.dirs)
@@ -1011,20 +1023,51 @@ def _one(ctx, fam, case, batch, spec_batch):
             spec_batch.extend(_spec_queries(info["prep"], case))
 
 
-def replay(ctx, rep):
-    brute.register(get_env())
-    r = rep.get("replay") or {}
-    case = r.get("case")
-    if case is None:
-        # a correspondence-only record of the interval grid
-        brs = rep.get("broken_correspondence") or []
-        ctx.infra("replay file has no case (%s)" % (brs[:1],))
+def _replay_grid(ctx):
+    reqs, exps, descr = interval_grid(ctx)
+    try:
+        ans = ctx.lean_run_sharded("C18", reqs)
+    except common.LeanError as e:
+        ctx.report_l("driver C18 does not run", str(e))
         return
-    batch, spec_batch = [], []
-    _one(ctx, "replay", case, batch, spec_batch)
-    _flush(ctx, batch, [True])
-    req, py_ans, viol, info = run_case(case)
-    print("replayed case: %s" % json.dumps(case))
-    print("implementation: result=%s events=%s" % (py_ans["result"], " ".join(py_ans["trace"])))
-    for sig, what in viol:
-        print("violation: %s  %s" % (what, json.dumps(sig, sort_keys=True)))
+    for r, e, a, d in zip(reqs, exps, ans, descr):
+        ctx.case(None)
+        if e != a:
+            ctx.report_k("OptSearchInterval differs from the model on %r: model %s, implementation %s" % (d, a, e),
+                         {"request": r, "model_answer": a, "implementation": e})
+            print("interval grid: %s -> model %s, implementation %s" % (r, a, e))
+
+
+def replay(ctx, rep):
+    """Re-run exactly the stored case(s): a failing input (`replay.case`) or, for a
+    correspondence-only record, every stored diverging case / the interval grid."""
+    brute.register(get_env())
+    cases = []
+    r = rep.get("replay") or {}
+    if r.get("case") is not None:
+        cases.append(r["case"])
+    grid = False
+    for k in rep.get("broken_correspondence") or []:
+        kr = k.get("replay") if isinstance(k, dict) else None
+        if isinstance(kr, dict):
+            if kr.get("case") is not None:
+                if kr["case"] not in cases:
+                    cases.append(kr["case"])
+            elif str(kr.get("request", "")).startswith("iv "):
+                grid = True
+    if grid:
+        _replay_grid(ctx)
+    if not cases and not grid:
+        ctx.infra("replay file contains no case")
+        return
+    for case in cases:
+        batch, spec_batch = [], []
+        _one(ctx, "replay", case, batch, spec_batch)
+        _flush(ctx, batch, [True])
+        req, py_ans, viol, info = run_case(case)
+        print("replayed case: %s" % json.dumps(case))
+        print("implementation: result=%s events=%s" % (py_ans["result"], " ".join(py_ans["trace"])))
+        for sig, what in viol:
+            print("violation: %s  %s" % (what, json.dumps(sig, sort_keys=True)))
+    for k in ctx.k_divergences:
+        print("correspondence: %s" % k["what"])
